@@ -278,9 +278,16 @@ func imgpath2dDMSuite(c *Ctx) {
 		if s == nil {
 			continue
 		}
+		class := "dm-posed"
+		if r.Chance(0.35) { // damaged data modules (theorem dm_image_tolerates_block_errors: the image path is the matrix path)
+			for j, nf := 0, r.Range(1, 6); j < nf; j++ {
+				s.Flip(r.Range(1, s.GetWidth()-2), r.Range(1, s.GetHeight()-2))
+			}
+			class = "dm-posed-damaged"
+		}
 		k := r.Range(1, 4)
 		q := func() int { return r.Pick([]int{0, 0, 1, 2, 3, 5, 9, 17}) }
 		m := detrestRender(s, float64(k), float64(k), q(), q(), q(), q())
-		imgpath2dDMPic(c, m, "dm-posed")
+		imgpath2dDMPic(c, m, class)
 	}
 }
